@@ -9,7 +9,8 @@ import toy
 from props import c02, c08
 
 REQUIRED_THEOREMS = ['C17_hier_lengths', 'C17_grad_length', 'C17_reduced_lengths',
-                     'C17_prefixed_nodup']
+                     'C17_prefixed_nodup', 'C17_labels_nodup', 'C17_labels_reject_iff',
+                     'C17_labels_early_test_counterexample']
 RULE = ('every kind of object (error models, population models incl. composed / covariate / reduced, individual '
         'and hierarchical likelihoods and posteriors, predictive models, SBML mechanistic models on the '
         'reference integrator) in random compositions (thorough: every composition of <=3 elementary sub-models '
@@ -65,7 +66,7 @@ def check_pop(ctx, pm, n_ids, rng, inp, tag, known_tag=None, cov_pooled=False):
 def pop_objects(ctx, chi, rng, i, subs=None, n_ids=None, ops=True):
     if subs is None:
         n_ids, subs = c02.gen_case(rng)
-    models = [c02.make_sub(chi, *s) for s in subs]
+    models = [c02.make_sub(chi, *s, n_ids=n_ids) for s in subs]
     composed = len(models) > 1 or rng.random() < 0.5
     pm = chi.ComposedPopulationModel(models) if composed else models[0]
     pm.set_n_ids(n_ids)
@@ -96,7 +97,7 @@ def pop_objects(ctx, chi, rng, i, subs=None, n_ids=None, ops=True):
                     pm.set_parameter_names(['q%d' % k for k in range(pm.n_parameters())])
                     pm.set_parameter_names(None)
                     seq.append('set_parameter_names(None)')
-                    fresh = [c02.make_sub(chi, *s_) for s_ in subs]
+                    fresh = [c02.make_sub(chi, *s_, n_ids=n_ids) for s_ in subs]
                     fresh = chi.ComposedPopulationModel(fresh) if composed else fresh[0]
                     fresh.set_n_ids(n_ids)
                     if any(x == 'set_dim_names' for x in seq):
@@ -115,6 +116,12 @@ def pop_objects(ctx, chi, rng, i, subs=None, n_ids=None, ops=True):
                     pm.set_population_parameters([[0, 0]])
                     seq.append('set_population_parameters')
             except Exception as e:  # noqa
+                stale_sel = any(c == 6 and nc and sel is not None and any(p_ >= n_ids for p_, _ in sel)
+                                for c, _, nc, sel in subs)
+                if stale_sel and isinstance(e, ValueError) and 'do not exist for n_ids' in str(e):
+                    # documented rejection: covariate-shifted parameters of individuals that no longer exist
+                    ctx.branches.add('set_n_ids-rejected-stale-selection')
+                    return
                 ctx.spec((known or 'C17.population') + '.reconfiguration_raises', False,
                          dict(inp, sequence=seq), {'raised': repr(e)[:200]})
                 return
@@ -204,20 +211,95 @@ def likelihood_objects(ctx, chi, rng, i):
                  post.n_parameters() == len(post.get_parameter_names()) == n, inp)
 
 
+def pre_reduced_error_models(ctx, chi, rng, i):
+    """error models handed over as reduced wrappers with a parameter fixed beforehand: after any releases the
+    names of a likelihood / predictive model over several outputs still identify the output"""
+    from props import c04
+    n_out = int(rng.integers(2, 4))
+    kinds = [c04.KINDS[int(rng.integers(4))] for _ in range(n_out)]
+    em_names = {'G': ['Sigma'], 'M': ['Sigma rel.'], 'CM': ['Sigma base', 'Sigma rel.'], 'LN': ['Sigma log']}
+    n_mech = int(rng.integers(1, 3))
+    pre = []
+
+    def ems():
+        out = []
+        for o, k in enumerate(kinds):
+            em = c04.classes(chi)[k][0]()
+            if pre[o] is not None:
+                em = chi.ReducedErrorModel(em)
+                em.fix_parameters({pre[o]: 0.7})
+            out.append(em)
+        return out
+    for k in kinds:
+        pre.append(em_names[k][int(rng.integers(len(em_names[k])))] if rng.random() < 0.7 else None)
+    model = toy.ToyModel(n_out, n_mech, i)
+    want_full = ['psi%d' % k for k in range(n_mech)] + [o + ' ' + nm for o, k_ in zip(model.outputs(), kinds)
+                                                        for nm in em_names[k_]]
+    hidden = [o + ' ' + p_ for o, p_ in zip(model.outputs(), pre) if p_ is not None]
+    objs = [('LogLikelihood', chi.LogLikelihood(model, ems(), [[1.0, 2.0]] * n_out, [[1.0, 2.0]] * n_out)),
+            ('PredictiveModel', chi.PredictiveModel(toy.ToyModel(n_out, n_mech, i), ems()))]
+    for label, obj in objs:
+        inp = {'object': label, 'kinds': kinds, 'fixed_beforehand_on_the_error_models': pre}
+        ctx.case(label + '/pre-reduced-error-models', nontrivial='%s/pre/%s/%s' % (label, kinds, pre), sample=inp)
+        tg = 'C17.%s.pre_reduced_error_models' % label
+        try:
+            names = obj.get_parameter_names()
+            ctx.spec(tg + '/names', names == [n_ for n_ in want_full if n_ not in hidden] and
+                     obj.n_parameters() == len(names), inp, {'names': names})
+            # release everything, by the names that identify the outputs
+            obj.fix_parameters({n_: None for n_ in hidden})
+            names = obj.get_parameter_names()
+            ctx.spec(tg + '/names_after_release', names == want_full and obj.n_parameters() == len(names) and
+                     len(set(names)) == len(names), dict(inp, released=hidden), {'names': names, 'expected': want_full})
+        except Exception as e:  # noqa
+            ctx.spec(tg + '/raises', False, inp, {'raised': repr(e)[:200]})
+
+
 def hier_objects(ctx, chi, rng, i, subs=None, n_ids=None):
     if subs is None:
         n_ids, subs = c02.gen_case(rng)
     D = sum(nd for _, nd, _, _ in subs)
-    models = [c02.make_sub(chi, *s) for s in subs]
+    models = [c02.make_sub(chi, *s, n_ids=n_ids) for s in subs]
     pm = chi.ComposedPopulationModel(models) if (len(models) > 1 or rng.random() < 0.5) else models[0]
     lls = []
+    # labels: none (the hierarchical likelihood assigns 'Log-likelihood <position>'), the user's own, or —
+    # likelihoods re-used from an earlier hierarchical model, in another order or subset — labels that look
+    # like the defaults of other positions
+    label_mode = rng.random()
+    labels = []
     for k in range(n_ids):
         lls.append(chi.LogLikelihood(toy.ToyModel(1, D - 1, 5), chi.GaussianErrorModel(), [1.0, 2.0], [1.0, 2.0]))
+        lab = None
+        if label_mode < 0.25:
+            r = rng.random()
+            lab = None if r < 0.4 else ('Log-likelihood %d' % int(rng.integers(1, n_ids + 2)) if r < 0.8
+                                        else 'patient %d' % int(rng.integers(1, 4)))
+        elif label_mode < 0.4:
+            lab = 'patient %d' % (k + 1)
+        if lab is not None:
+            lls[-1].set_id(lab)
+        labels.append(lab)
+    effective = [lab if lab is not None else 'Log-likelihood %d' % (k + 1) for k, lab in enumerate(labels)]
     n_cov = sum(nc for _, _, nc, _ in subs)
     cov = rng.normal(size=(n_ids, n_cov)) * 0.3 if n_cov else None
     cov_pooled = any(c == 5 and nc > 0 for c, _, nc, _ in subs)
-    inp = {'object': 'HierarchicalLogLikelihood', 'n_ids': n_ids,
+    inp = {'object': 'HierarchicalLogLikelihood', 'n_ids': n_ids, 'labels': labels,
            'subs': [[c02.KINDS[c], nd, nc, sel] for c, nd, nc, sel in subs]}
+    mlab = ctx.model('C17.labels', labels)[0]
+    if len(set(effective)) < len(effective):
+        # two individuals would carry the same ID: the object must not come into being
+        ctx.case('Hierarchical/colliding-labels', nontrivial='Hdup/%s' % labels, sample=inp)
+        try:
+            h = chi.HierarchicalLogLikelihood(lls, pm, covariates=cov)
+            got = [ll.get_id() for ll in h.get_log_likelihoods()] if hasattr(h, 'get_log_likelihoods') else None
+            ctx.spec('C17.Hierarchical.ids_of_individuals_distinct', False, inp,
+                     {'constructed_with_ids': h.get_id(unique=True), 'individual_ids': got})
+        except ValueError:
+            ctx.branches.add('colliding-labels-rejected')
+            ctx.agree('C17.labels', 'err:valueError', mlab, inp)
+        except Exception as e:  # noqa
+            ctx.spec('C17.Hierarchical.raises', False, inp, {'raised': repr(e)[:200]})
+        return
     ctx.case('Hierarchical/nsub%d' % len(subs),
              nontrivial=('H/%s/%d' % ([(c02.KINDS[c], nd, nc) for c, nd, nc, _ in subs], n_ids))
              if len(subs) > 1 else False, sample=inp)
@@ -236,6 +318,13 @@ def hier_objects(ctx, chi, rng, i, subs=None, n_ids=None):
     ctx.spec('C17.Hierarchical.ids_mark_individual_entries',
              all(x is not None for x in ids[:n - nt]) and all(x is None for x in ids[n - nt:]), inp, {'ids': ids})
     ctx.spec('C17.Hierarchical.prefixed_names_distinct', len(set(pref)) == len(pref), inp, {'names': pref})
+    try:
+        uid = list(hll.get_id(unique=True))
+        ctx.spec('C17.Hierarchical.ids_of_individuals_distinct', uid == effective, inp,
+                 {'ids': uid, 'expected': effective})
+        ctx.agree('C17.labels', uid, mlab, inp)
+    except Exception as e:  # noqa
+        ctx.spec('C17.Hierarchical.ids_of_individuals_distinct', False, inp, {'raised': repr(e)[:200]})
     ctx.spec('C17.Hierarchical.population_names_in_order', names[n - nt:] == pm.get_parameter_names(), inp)
     # model correspondence (lengths as the Lean model computes them)
     msubs = [[c, nd, nc, [list(p) for p in c02.stored_selection(c, nd, nc, sel, n_ids)]] for c, nd, nc, sel in subs]
@@ -345,6 +434,33 @@ def sbml_objects(ctx, chi, rng, count):
             ctx.spec(t + '.sensitivity_width', s.shape == (2, m.n_outputs(), n), inp, {'shape': list(s.shape)})
         except Exception as e:  # noqa
             ctx.spec(t + '.accepts_vector_of_reported_length', False, inp, {'raised': repr(e)[:200]})
+            continue
+        # sensitivities requested for a subset; measured and unmeasured individuals (empty time grid)
+        try:
+            sub = [names[j] for j in sorted(rng.choice(n, size=int(rng.integers(1, n + 1)), replace=False))]
+            m.enable_sensitivities(True, sub)
+            _, s1 = m.simulate(x, [0.5, 1.0])
+            o0, s0 = m.simulate(x, [])
+            ctx.spec(t + '.sensitivity_width_subset', s1.shape == (2, m.n_outputs(), len(sub)) and
+                     s0.shape == (0, m.n_outputs(), len(sub)) and np.asarray(o0).shape == (m.n_outputs(), 0),
+                     dict(inp, sensitivities_for=sub), {'shape': list(s1.shape), 'shape_empty_grid': list(s0.shape)})
+            rm = chi.ReducedMechanisticModel(m)
+            fx = {names[j]: float(x[j]) for j in rng.choice(n, size=int(rng.integers(1, n)), replace=False)} \
+                if n > 1 else {}
+            rm.fix_parameters(fx)
+            for tms, obs_ in (([], []), ([0.5, 1.0], [1.0, 1.2])):
+                ll = chi.LogLikelihood(rm, [chi.GaussianErrorModel() for _ in range(rm.n_outputs())],
+                                       [list(obs_) for _ in range(rm.n_outputs())],
+                                       [list(tms) for _ in range(rm.n_outputs())])
+                k = ll.n_parameters()
+                xs = rng.uniform(0.5, 1.5, k)
+                with np.errstate(all='ignore'):
+                    ll(xs)
+                    _, g = ll.evaluateS1(xs)
+                ctx.spec(t + '.likelihood_gradient_length', len(g) == k == len(ll.get_parameter_names()),
+                         dict(inp, fixed=sorted(fx), measurements=len(tms)), {'len': len(g), 'n': k})
+        except Exception as e:  # noqa
+            ctx.spec(t + '.likelihood_over_reduced_model_raises', False, dict(inp), {'raised': repr(e)[:200]})
 
 
 def run(ctx):
@@ -358,6 +474,8 @@ def run(ctx):
         if i % 2 == 0:
             ctx.guard(likelihood_objects, ctx, chi, ctx.sub_rng(4 * i + 2), i)
             ctx.guard(predictive_objects, ctx, chi, ctx.sub_rng(4 * i + 3), i)
+        if i % 6 == 1:
+            ctx.guard(pre_reduced_error_models, ctx, chi, ctx.sub_rng(4 * i + 3), i)
     ctx.guard(sbml_objects, ctx, chi, ctx.sub_rng(10 ** 6), 12 if quick else 80)
     if not quick:
         opts = [(c, nd, 0, None) for c in range(7) for nd in (1, 2)]
